@@ -363,6 +363,50 @@ sys.exit(1 if (bad or diff) else 0)
 '''
 
 
+def model_logging_cases():
+    """Model level: the series a solved model stores and hands out are the same whether or not the standard logs are registered, for every
+    combination of the display settings stated BEFORE main() (time-zero suppression, cut-off).  Concrete runs (log writing formats numbers)."""
+    import os
+    import shutil
+    import tempfile
+    from vf import zoo as Z
+    plans = [p for p in Z.zoo('quick') if p.name in ('sim', 'pc', 'xz_gift')]
+    n, bad = 0, []
+    for plan in plans:
+        for suppress in (False, True):
+            for cutoff in (None, 2):
+                runs = []
+                for logs in (False, True):
+                    scratch = tempfile.mkdtemp(prefix='sfcverif_c17m_')
+                    Logger.cleanup()
+                    try:
+                        ctx = Z.build(plan, maxtime=3)
+                        m = ctx.model
+                        m.TimeSeriesSupressTimeZero = suppress
+                        m.TimeSeriesCutoff = cutoff
+                        if logs:
+                            Logger.register_standard_logs(os.path.join(scratch, 'run'))
+                        try:
+                            m.main()
+                            stored = {v: list(m.EquationSolver.TimeSeries[v]) for v in m.EquationSolver.TimeSeries}
+                            handed = {v: m.GetTimeSeries(v) for v in stored}
+                            runs.append(('ok', stored, handed))
+                        except Exception as e:
+                            runs.append(('error', type(e).__name__, None))
+                    finally:
+                        Logger.cleanup()
+                        shutil.rmtree(scratch, ignore_errors=True)
+                n += 1
+                if runs[0] != runs[1]:
+                    if runs[0][0] == 'ok' and runs[1][0] == 'ok':
+                        diff = [v for v in runs[0][1] if runs[0][1][v] != runs[1][1].get(v) or runs[0][2][v] != runs[1][2].get(v)]
+                        why = 'series differ with logging on: %r' % (diff[:4],)
+                    else:
+                        why = 'outcome without logs %r, with logs %r' % (runs[0][:2], runs[1][:2])
+                    bad.append((plan.name, suppress, cutoff, why))
+    return n, bad
+
+
 def id_offsets():
     """FinalEquations built at several values of the process-wide object counter must be textually equal."""
     from vf import zoo as Z
@@ -441,6 +485,14 @@ def run(tier, seed):
                 chk.violation('interleave:%s:%s' % (rec['plan'], ob['iname']), ob['what'] + ' ' + str(ob.get('structural', '')),
                               REPLAY_INTERLEAVE % dict(plan=rec['plan'], order=rec['order'], pos=ob['pos'], iname=ob['iname']))
     chk.sample({'harness': 'construction interleavings', 'builds': chk.counters.get('interleaved_builds', 0), 'post': 'emitted system == undisturbed build'})
+    n2, bad2 = model_logging_cases()
+    chk.obligations += n2
+    chk.discharged += n2 - len(bad2)
+    chk.counters['model_logging_cases'] = n2
+    chk.bounds['model-level logging'] = '%d cases: 3 topologies x time-zero suppression on/off x cut-off None/2 stated before main(), standard logs registered or not: stored and handed-out series identical' % n2
+    for b in bad2:
+        chk.violation('model-logging:%s:%r:%r' % b[:3], 'topology %s, TimeSeriesSupressTimeZero=%r, TimeSeriesCutoff=%r set before main(): %s' % b,
+                      'import sys\nfrom vf.props.c17 import model_logging_cases\nn, bad = model_logging_cases()\nhit = [b for b in bad if b[:3] == %r]\nprint(hit)\nsys.exit(1 if hit else 0)\n' % (b[:3],))
     n, bad = id_offsets()
     chk.obligations += n
     chk.discharged += n - len(bad)
